@@ -12,10 +12,12 @@ REPO = os.environ.get('VERIF_REPO', '/repo')
 TARGET = os.path.join(ROOT, 'build', 'miri-target')
 
 
-def run(timeout=2400, tier='quick'):
+def run(timeout=2400, tier='quick', native=False):
+    """native=True: the same life cycles as an ordinary test binary (system allocator: freed addresses are reused at once, which
+    Miri's allocator does only now and then) -- catches stale per-address state; no memory-safety checking in that mode"""
     t0 = time.time()
     # Miri's cached test binary remembers the directory it was built in: use one fixed scratch path
-    d = '/tmp/riti-verif-miri-scratch'
+    d = '/tmp/riti-verif-miri-scratch' if not native else tempfile.mkdtemp(prefix='riti-verif-ffi-native-')
     shutil.rmtree(d, ignore_errors=True)
     os.makedirs(d)
     try:
@@ -26,27 +28,33 @@ def run(timeout=2400, tier='quick'):
             elif os.path.exists(s):
                 shutil.copy(s, os.path.join(d, name))
         os.makedirs(os.path.join(d, 'tests'), exist_ok=True)
+        # copytree keeps modification times: make cargo see the crate as changed, so that it is rebuilt from THIS tree on every run
+        for root_, _dirs, files in os.walk(os.path.join(d, 'src')):
+            for fn in files:
+                os.utime(os.path.join(root_, fn), None)
         shutil.copy(os.path.join(ROOT, 'miri', 'verif_ffi_miri.rs'), os.path.join(d, 'tests', 'verif_ffi_miri.rs'))
         # the crate's own artefacts are rebuilt every run (dependencies stay cached)
         import glob
-        for pat in ('miri/*/debug/deps/*riti*', 'miri/*/debug/deps/verif_ffi_miri*', 'miri/*/debug/.fingerprint/riti-*', 'miri/*/debug/incremental/*'):
+        for pat in () if native else ('miri/*/debug/deps/*riti*', 'miri/*/debug/deps/verif_ffi_miri*', 'miri/*/debug/.fingerprint/riti-*', 'miri/*/debug/incremental/*'):
             for f in glob.glob(os.path.join(TARGET, pat)):
                 shutil.rmtree(f, ignore_errors=True) if os.path.isdir(f) else os.remove(f)
         env = dict(os.environ)
         env['CARGO_NET_OFFLINE'] = 'true'
-        env['CARGO_TARGET_DIR'] = TARGET
+        env['CARGO_TARGET_DIR'] = TARGET if not native else os.path.join(ROOT, 'build', 'native-target')
         env['MIRIFLAGS'] = '-Zmiri-disable-isolation'
         env['VERIF_TIER'] = tier
         env['VERIF_SYNTH_LAYOUT'] = os.path.join(ROOT, 'data', 'synthetic_layout.json')
         env['VERIF_MINI_DB'] = os.path.join(ROOT, 'data', 'mini_db')
         cmd = ['cargo', '+nightly', 'miri', 'test', '--offline', '--test', 'verif_ffi_miri']
+        if native:
+            cmd = ['cargo', 'test', '--offline', '--test', 'verif_ffi_miri', '--', '--test-threads=1']
         try:
             p = subprocess.run(cmd, cwd=d, env=env, capture_output=True, text=True, timeout=timeout)
         except subprocess.TimeoutExpired:
             return {'status': 'undecided', 'detail': 'miri timeout', 'cmd': ' '.join(cmd), 'wall_s': time.time() - t0}
         text = p.stdout + '\n' + p.stderr
         m = re.search(r'test result: (\w+)\. (\d+) passed; (\d+) failed', text)
-        if p.returncode == 0 and m and m.group(1) == 'ok' and int(m.group(2)) >= 3:
+        if p.returncode == 0 and m and m.group(1) == 'ok' and int(m.group(2)) >= 4:
             st = 'ok'
         elif 'Undefined Behavior' in text or 'memory leaked' in text or 'panicked' in text or (m and int(m.group(3)) > 0):
             st = 'fail'
